@@ -15,6 +15,13 @@ import (
 
 var checks = map[string]func(*run.Ctx){}
 
+// children are small jobs a check runs in a fresh process of this very binary
+// ("gpv child <name>": request on stdin, JSON reply on stdout), to compare what a
+// long-lived process computes with what a process without any history computes.
+var children = map[string]func(in []byte) any{}
+
+func registerChild(name string, f func(in []byte) any) { children[name] = f }
+
 func register(id string, f func(*run.Ctx)) { checks[strings.ToLower(id)] = f }
 
 func main() {
@@ -28,6 +35,10 @@ func main() {
 		os.Exit(3)
 	}
 	id := strings.ToLower(os.Args[1])
+	if id == "child" && len(os.Args) >= 3 {
+		runChild(os.Args[2])
+		return
+	}
 	f, ok := checks[id]
 	if !ok {
 		fmt.Fprintf(os.Stderr, "unknown check %q\n", id)
